@@ -499,4 +499,17 @@ theorem flags_step {s s' : State} {o : Obs} (h : step? s o = some s') (i : Nat) 
       · injection h with h; subst h
         exact ⟨Or.inl, Or.inl, Or.inl, Or.inl, rfl⟩
 
+theorem read_phase {s s' : State} {i : Nat} (h : step? s (.read i) = some s') :
+    ∃ b, (s'.trs i).phase = .reading b := by
+  simp only [step?] at h
+  split at h
+  · split at h
+    · rename_i b0 _
+      injection h with h; subst h; exact ⟨b0, by simp [upd]⟩
+    · split at h
+      · injection h with h; subst h; exact ⟨false, by simp [upd]⟩
+      · simp at h
+    · simp at h
+  · simp at h
+
 end XknxVerif.StateUpdater
